@@ -20,8 +20,11 @@ Reading of the clauses:
                                                              the only population variable of the machine
 * "a hall of fame has been shown every evaluated individual" → `hof_fed`
 * "μ+λ with truncation selection: best never gets worse"   → `plus_monotone`
+* HARM-GP's acceptance arithmetic (not part of the statement, modelled for the replay): `harm_accept_prob_*`
 -/
 import DeapModel.Lemmas.C03
+import DeapModel.Lemmas.C03Harm
+import Mathlib.Analysis.Complex.ExponentialBounds
 
 namespace C03
 open Variation Loops
@@ -37,6 +40,8 @@ structure Init (ev : List Int → List Int) (s : LState) : Prop where
   distinct : (invalidOf s.st.heap s.pop).Nodup
   log : s.log = []
   evals : s.evals = []
+  shown : s.shown = []
+  shownObj : s.shownObj = []
 
 /-! ## Concrete instances for the `example`s -/
 
@@ -66,6 +71,8 @@ theorem demoInit : Init demoEv demoState where
   distinct := by decide
   log := rfl
   evals := rfl
+  shown := rfl
+  shownObj := rfl
 
 /-- two generations of eaSimple: selection picks positions 2,0,0; the first pair is mated, the third
 offspring is an untouched copy in generation 1 and mutated in generation 2 -/
@@ -75,7 +82,7 @@ def demoSimple := eaSimple C02.demoOps demoEv
 example : demoSimple.map (fun r => (r.2.pop, r.2.log, r.2.evals)) =
     some ([6, 7, 8], [(0, 2), (1, 2), (2, 1)], [(0, 1), (0, 2), (1, 3), (1, 4), (2, 8)]) := by decide
 example : demoSimple.map (fun r => r.2.pop.map (fun o => (r.2.st.heap o).fit)) =
-    some [some [12], some [18], some [-6]] := by decide
+    some [some [12], some [18], some [-6]] := by decide +kernel
 
 /-- one generation of μ+λ (μ = 2, λ = 3): crossover of positions 0,2, mutation of 1, reproduction of 2;
 the selector picks candidates 2 and 5 (the old individual #2 and its untouched copy, both 24) -/
@@ -185,6 +192,22 @@ theorem hof_fed (steps : List (Step σ)) (hc : ∀ stp ∈ steps, StepContract s
     (∀ e ∈ s'.evals, e.2 ∈ s'.shown) ∧ (∀ p ∈ s'.pop, p ∈ s'.shown) :=
   ⟨(runGens_inv steps g t t' s s' hc hinv h).shownEvals, (runGens_inv steps g t t' s s' hc hinv h).shownPop⟩
 
+/-- **The hall of fame is shown EVALUATED individuals** (population-based loops): every individual passed to
+`halloffame.update` carried, at that moment, the fitness `evaluate` gives for the genotype it had then —
+the evaluation block runs before the update, in generation 0 and in every later generation.  `shownObj` is
+the same feed as `shown`, with the content of the individuals. -/
+theorem hof_shown_evaluated (steps : List (Step σ)) (hc : ∀ stp ∈ steps, StepContract stp) (t t' : σ)
+    (s s' : LState) (hi : Init ev s) (h : runPop ev steps t s = some (t', s')) :
+    (∀ e ∈ s'.shownObj, e.2.fit = some (ev e.2.genome)) ∧ s'.shownObj.map (·.1) = s'.shown :=
+  runGens_shown steps 1 t t' _ s' hc (gen0_establishes s hi)
+    (gen0_shown ev s hi.truthful hi.shown hi.shownObj) h
+
+/-- … and for generate–update. -/
+theorem hof_shown_evaluated_gu (steps : List (Step σ)) (hc : ∀ stp ∈ steps, StepContract stp) (t t' : σ)
+    (st : St) (s' : LState) (h : runGU ev steps t { st := st, pop := [] } = some (t', s')) :
+    (∀ e ∈ s'.shownObj, e.2.fit = some (ev e.2.genome)) ∧ s'.shownObj.map (·.1) = s'.shown :=
+  runGens_shown steps 0 t t' _ s' hc (empty_establishes st) ⟨by simp, rfl⟩ h
+
 /-! ## The five loops -/
 
 /-- eaSimple, any `ngen`, any selection/variation decisions: truthful, log 0..ngen, size kept, nevals, hof. -/
@@ -257,9 +280,29 @@ theorem eaMuCommaLambda_correct (hc : OpContract ops) (mu lam : Nat) (decs : Lis
   · intro hne
     exact runGens_size_const mu _ 1 t t' _ s' (by simpa using hne) hsc h0 h
 
+/-- one generation of μ,λ (μ = 2, λ = 3): the selector picks offspring 1 and 2 -/
+def demoComma := eaMuCommaLambda C02.demoOps demoEv 2 3
+  [⟨[Choice.cx 0 2, Choice.mutn 1, Choice.rep 2], [1, 2]⟩] () demoState
+example : OpContract C02.demoOps ∧ Init demoEv demoState ∧
+    demoComma.map (fun r => (r.2.pop, r.2.log)) = some ([5, 6], [(0, 2), (1, 2)]) :=
+  ⟨C02.demoOps_contract, demoInit, by decide⟩
+/-- `lambda_ < mu`: the assertion, no run -/
+example : (eaMuCommaLambda C02.demoOps demoEv 3 2 [] () demoState).isNone = true := by decide
+
+/-- one HARM generation, `nbrindsmodel = 3`: the natural population is a mutant of #1, and the two children
+of a crossover of #0 and #2; the second `_genpop` pops them from the end: the last is rejected, the other two
+accepted, then a reproduction of #2 is generated and accepted -/
+def demoHarm := harm C02.demoOps demoEv 3
+  [⟨[HStep.mutn 1 true, HStep.cx 0 2 true true],
+    [HStep.pick false, HStep.pick true, HStep.pick true, HStep.rep 2 true]⟩] () demoState
+example : OpContract C02.demoOps ∧ Init demoEv demoState ∧
+    demoHarm.map (fun r => (r.2.pop, r.2.log, r.2.evals)) =
+      some ([4, 3, 6], [(0, 2), (1, 2)], [(0, 1), (0, 2), (1, 4), (1, 3)]) :=
+  ⟨C02.demoOps_contract, demoInit, by decide⟩
+
 /-- gp.harm (control flow; every `acceptfunc` result is a free decision): the same guarantees, with the
 population keeping its initial size. -/
-theorem harm_correct (hc : OpContract ops) (nbr : Nat) (decs : List HarmDec) (t t' : σ) (s s' : LState)
+theorem harm_correct (hc : OpContract ops) (nbr : Nat) (decs : List (HarmDec Bool)) (t t' : σ) (s s' : LState)
     (hi : Init ev s) (h : harm ops ev nbr decs t s = some (t', s')) :
     (∀ p ∈ s'.pop, (s'.st.heap p).fit = some (ev (s'.st.heap p).genome)) ∧
     s'.log.map (·.1) = List.range (decs.length + 1) ∧
@@ -277,6 +320,103 @@ theorem harm_correct (hc : OpContract ops) (nbr : Nat) (decs : List HarmDec) (t 
   refine ⟨truthful _ hsc' 1 t t' _ s' h0 h, ?_, ?_, hn.1, hn.2, hh.1, hh.2⟩
   · simpa using log_shape _ hsc' t t' s s' hi h
   · exact runGens_size_id _ 1 t t' (gen0 ev s) s' hsc h0 h
+
+/-- gp.harm with the acceptance test COMPUTED by the model (`acceptfunc` = recorded `random()` draw ≤ the
+threshold derived from the natural population, for any scalar type — `Float` in the replay, `ℝ` in the
+theorems below): the same guarantees.  They do not depend on the acceptance arithmetic at all. -/
+theorem harmR_correct {α : Type} [RealLike α] (hc : OpContract ops) (nbr : Nat)
+    (ps : List (HarmParams α × HarmDec α)) (t t' : σ) (s s' : LState)
+    (hi : Init ev s) (h : harmR ops ev nbr ps t s = some (t', s')) :
+    (∀ p ∈ s'.pop, (s'.st.heap p).fit = some (ev (s'.st.heap p).genome)) ∧
+    s'.log.map (·.1) = List.range (ps.length + 1) ∧
+    s'.pop.length = s.pop.length ∧
+    (∀ rec ∈ s'.log, rec.2 = (s'.evals.filter (fun e => e.1 == rec.1)).length) ∧ s'.evals.Nodup ∧
+    (∀ e ∈ s'.evals, e.2 ∈ s'.shown) ∧ (∀ p ∈ s'.pop, p ∈ s'.shown) := by
+  have hsc : ∀ stp ∈ ps.map (fun pd => harmStepR ops nbr pd.1 pd.2), StepContract stp ∧ SizeIs stp id := by
+    intro stp hm
+    obtain ⟨d, _, rfl⟩ := List.mem_map.1 hm
+    exact ⟨harmStepG_contract hc nbr _ d.2,
+      fun t st pop r h np hpop hp hr => harmStepG_size hc nbr _ d.2 hpop hp hr⟩
+  have hsc' : ∀ stp ∈ ps.map (fun pd => harmStepR ops nbr pd.1 pd.2), StepContract stp :=
+    fun x hx => (hsc x hx).1
+  have h0 := gen0_establishes s hi
+  have hn := nevals_logged _ hsc' 1 t t' _ s' h0 h
+  have hh := hof_fed _ hsc' 1 t t' _ s' h0 h
+  refine ⟨truthful _ hsc' 1 t t' _ s' h0 h, ?_, ?_, hn.1, hn.2, hh.1, hh.2⟩
+  · simpa using log_shape _ hsc' t t' s s' hi h
+  · exact runGens_size_id _ 1 t t' (gen0 ev s) s' hsc h0 h
+
+/-! ### HARM-GP acceptance arithmetic over ℝ (gp.py 1084-1122)
+
+`acceptfunc(s) = random.random() <= probfunc(s)`.  What the code guarantees about the threshold
+`probfunc(s)`, for `gamma ≥ 0` and a positive half-life `x·alpha + beta` (the division by
+`halflifefunc(x)` is NOT guarded by the code: `alpha = beta = 0` raises `ZeroDivisionError`):
+* it is never negative (`harm_accept_prob_nonneg`);
+* for sizes up to the cutoff it is exactly 0 or 1 (`harm_accept_prob_unit_below_cutoff`);
+* above the cutoff it is `targetfunc/naturalhist`, which the code does NOT clamp: it exceeds 1 whenever the
+  target distribution asks for more individuals of a size than the natural one provides — then every
+  aspirant of that size is accepted.  So "the threshold is a probability in [0,1]"
+  (`harm_accept_prob_unit_Statement`) is false as stated; `harm_accept_prob_exceeds_one` is a witness.
+* the division `val * len(population) / nbrindsmodel` is only reached with a non-empty natural population,
+  i.e. `nbrindsmodel ≥ 1` (`harm_hist_needs_natural`); `t / n` is guarded by `n > 0` in the code
+  (`probHist`). -/
+
+/-- the acceptance threshold is never negative -/
+theorem harm_accept_prob_nonneg (p : HarmParams ℝ) (npop nbr : Nat) (inds : List (List Int × Nat))
+    (thr : Nat → ℝ) (h : acceptThreshold p npop nbr inds = some thr) (hg : 0 ≤ p.gamma)
+    (hl : ∀ x, 0 < halflife p x) : ∀ s, 0 ≤ thr s := by
+  simp only [acceptThreshold] at h
+  split at h
+  next nat cutoff hnat _ =>
+    simp only [Option.some.injEq] at h
+    subst h
+    exact probFunc_nonneg p npop cutoff nat (naturalHist_nonneg _ _ _ _ hnat) hg hl
+  · simp at h
+
+example : ∀ x, (0 : ℝ) < halflife (α := ℝ) ⟨0.05, 10, 0.25, 20, 0⟩ x := by
+  intro x
+  simp only [halflife, RealLike.real_mul, RealLike.real_add, RealLike.real_ofNat]
+  positivity
+
+/-- up to the cutoff size the threshold is exactly 0 (no natural individual near that size) or 1 -/
+theorem harm_accept_prob_unit_below_cutoff (p : HarmParams ℝ) (npop nbr : Nat) (sizes : List Nat)
+    (nat : List ℝ) (hnat : naturalHist sizes npop nbr = some nat) (cutoff s : Nat) (hs : s ≤ cutoff)
+    (hlen : s < nat.length) :
+    probFunc p npop cutoff (probHist p npop cutoff nat) s = 0 ∨
+    probFunc p npop cutoff (probHist p npop cutoff nat) s = 1 :=
+  probFunc_below_cutoff p npop cutoff nat (naturalHist_nonneg _ _ _ _ hnat) s hs hlen
+
+/-- the histogram normalisation `… / nbrindsmodel` is only reached with a non-empty natural population -/
+theorem harm_hist_needs_natural (sizes : List Nat) (npop nbr : Nat) (nat : List ℝ)
+    (h : naturalHist sizes npop nbr = some nat) : sizes ≠ [] :=
+  naturalHist_nonempty sizes npop nbr nat h
+
+/-- The full claim "the acceptance threshold is a probability in [0,1]" for every natural histogram — FALSE:
+the code does not clamp the ratio `targetfunc / naturalhist` (nor `targetfunc` beyond the histogram). -/
+def harm_accept_prob_unit_Statement : Prop :=
+  ∀ (p : HarmParams ℝ) (npop cutoff s : Nat) (nat : List ℝ),
+    AllNonneg nat → 0 ≤ p.gamma → (∀ x, 0 < halflife p x) →
+    0 ≤ probFunc p npop cutoff (probHist p npop cutoff nat) s ∧
+    probFunc p npop cutoff (probHist p npop cutoff nat) s ≤ 1
+
+/-- the lower half of it holds … -/
+theorem harm_accept_prob_unit_partial (p : HarmParams ℝ) (npop cutoff s : Nat) (nat : List ℝ)
+    (hnat : AllNonneg nat) (hg : 0 ≤ p.gamma) (hl : ∀ x, 0 < halflife p x) :
+    0 ≤ probFunc p npop cutoff (probHist p npop cutoff nat) s :=
+  probFunc_nonneg p npop cutoff nat hnat hg hl s
+
+/-- … the upper half does not: `gamma = 2`, `alpha = 0`, `beta = 1`, one individual, cutoff 20 (the default
+`mincutoff`), an aspirant of size 20: the threshold is `2·ln 2 ≈ 1.39`.  (With the recommended parameters the
+same happens whenever the natural histogram is thin at a size above the cutoff; the harness counts these runs.)
+A threshold above 1 just means "always accept" for `random() <= threshold`. -/
+theorem harm_accept_prob_exceeds_one : ¬ harm_accept_prob_unit_Statement := by
+  intro hst
+  have h := (hst ⟨0, 1, 2, 20, 0⟩ 1 20 20 [] (by intro x hx; simp at hx) (by norm_num)
+    (by intro x; simp [halflife])).2
+  have hlog := Real.log_two_gt_d9
+  simp [probFunc, probHist, targetFunc, halflife] at h
+  norm_num at h hlog
+  linarith
 
 /-- eaGenerateUpdate: every individual `generate()` hands back — brand-new or a persistent one moved in
 place, whatever fitness it carried — is evaluated (nevals = their number), records `0..ngen-1`, the returned
@@ -331,7 +471,7 @@ least as good (lexicographic order of `wvalues`, as `Fitness.__le__` compares). 
 theorem plus_monotone (hc : OpContract ops) (mu lam : Nat) (hmu : 0 < mu) (decs : List (List Choice))
     (g : Nat) (t t' : σ) (s s' : LState) (hinv : Inv ev g s)
     (h : runGens ev (decs.map (plusBestStep ops mu lam)) g t s = some (t', s')) :
-    ∀ p ∈ s.pop, ∃ q ∈ s'.pop, fitKey s.st.heap p ≤ fitKey s'.st.heap q :=
+    ∀ p ∈ s.pop, ∃ q ∈ s'.pop, keyLe (fitKey s.st.heap p) (fitKey s'.st.heap q) :=
   plusBest_run_monotone hc hmu decs g t t' s s' hinv h
 
 /-- eaMuPlusLambda with `toolbox.select = tools.selBest` and μ ≤ λ: the model computes the selection itself
@@ -361,7 +501,7 @@ theorem eaMuPlusLambdaBest_correct (hc : OpContract ops) (mu lam : Nat) (hle : m
 theorem eaMuPlusLambdaBest_monotone (hc : OpContract ops) (mu lam : Nat) (hmu : 0 < mu)
     (decs : List (List Choice)) (t t' : σ) (s s' : LState) (hi : Init ev s)
     (h : eaMuPlusLambdaBest ops ev mu lam decs t s = some (t', s')) :
-    ∀ p ∈ s.pop, ∃ q ∈ s'.pop, fitKey (gen0 ev s).st.heap p ≤ fitKey s'.st.heap q :=
+    ∀ p ∈ s.pop, ∃ q ∈ s'.pop, keyLe (fitKey (gen0 ev s).st.heap p) (fitKey s'.st.heap q) :=
   plus_monotone hc mu lam hmu decs 1 t t' _ s' (gen0_establishes s hi) h
 
 example : OpContract C02.demoOps ∧ (0 < 2) ∧ Init demoEv demoState ∧ demoPlus.isSome = true :=
